@@ -29,8 +29,11 @@ def main(argv):
     model_lines, model_meta = [], []
     followups = [c for c in OPS if c["op"] in ("add", "get", "set", "incr", "get_many", "delete", "gets")]
     n = 0
-    for kind in ("Client", "Pooled", "Pooled1", "Hash1", "HashPooled"):
-        for oi, call in enumerate(OPS):
+    ALL = OPS + [{"op": "quit"}]
+    for kind in ("Client", "ClientIgn", "Pooled", "Pooled1", "Hash1", "HashPooled"):
+        for oi, call in enumerate(ALL):
+            if call["op"] == "quit" and kind.startswith("Hash"):
+                continue          # HashClient.quit is a broadcast, not a key-addressed call
             scripts = []
             for bk in BASE_KINDS:
                 for api in ("getaddrinfo", "socket", "connect", "settimeout"):
@@ -41,7 +44,9 @@ def main(argv):
                 if has_reply(call):
                     for pos in range(0, 14 if ctx.thorough else 8):
                         scripts.append({"recv_fault": (pos, bk), "chunk": "bytes" if pos % 2 else "rand"})
-            if kind not in ("Client", "Pooled") and not ctx.thorough:
+            if call["op"] == "quit":
+                scripts += [{"close_fault": bk} for bk in BASE_KINDS] + [{"close_fault": bk, "close_leaves_open": True} for bk in BASE_KINDS]
+            if kind not in ("Client", "Pooled") and not ctx.thorough and call["op"] != "quit":
                 scripts = scripts[::2]
             # an ordinary failure whose clean-up (the close() of the socket) is itself interrupted
             if has_reply(call):
@@ -75,7 +80,7 @@ def main(argv):
                         return o
                     C01.mk = mk_obs
                     try:
-                        ok = run_sequence(ctx, real_kind, classes, seq, rng, model_lines if (kind == "Client" and "close_fault" not in script) else None, model_meta)
+                        ok = run_sequence(ctx, real_kind, classes, seq, rng, model_lines if (kind in ("Client", "ClientIgn") and "close_fault" not in script) else None, model_meta)
                     finally:
                         C01.mk = orig_mk
                     n += 1
